@@ -48,15 +48,17 @@
      O6 leafref-raw       a leafref machine that fails to run is reported as the raw Go error
                           (no path, no tag), not as an exec error; nothing is cached then.     *)
 EXTENDS Integers, Sequences, FiniteSets, TLC
-XS == INSTANCE XPathSets
+XS == INSTANCE XPathAst
 
 \* ============================================================== 1. strings
 Ch(s, i) == SubSeq(s, i, i)
 Rest(s) == SubSeq(s, 2, Len(s))
 \* the characters used in names and values, in ASCII order
 Alphabet == "-.0123456789ABCDEFGHIJKLMNOPQRSTUVWXYZ_abcdefghijklmnopqrstuvwxyz"
-CharRank(c) == CHOOSE i \in 1..Len(Alphabet) : Ch(Alphabet, i) = c
-IsDigit(c) == c \in {"0", "1", "2", "3", "4", "5", "6", "7", "8", "9"}
+CharRankF == [c \in {Ch(Alphabet, i) : i \in 1..Len(Alphabet)} |-> CHOOSE i \in 1..Len(Alphabet) : Ch(Alphabet, i) = c]
+CharRank(c) == CharRankF[c]
+Digits == {"0", "1", "2", "3", "4", "5", "6", "7", "8", "9"}
+IsDigit(c) == c \in Digits
 RECURSIVE ByteLess(_, _)
 ByteLess(a, b) ==
   IF a = "" THEN b # "" ELSE IF b = "" THEN FALSE
@@ -122,23 +124,34 @@ HasPath(e) ==
 \* running it under NewCtxFromMach gives
 Ex(ast) == [txt |-> XS!Render(ast, "min", 0),
             v |-> IF HasPath(ast) THEN "fail" ELSE IF XS!ToBool(XS!Denote(ast)) THEN "true" ELSE "false"]
-Two == XS!N("2", XS!Num(2))
+\* AST constructors (as in XPathSets)
+XN_(txt, v) == [k |-> "num", txt |-> txt, v |-> v]
+XL(s) == [k |-> "lit", s |-> s]
+XF0(f) == [k |-> "fn0", f |-> f]
+XF1(f, a) == [k |-> "f1", f |-> f, a |-> a]
+XF2(f, a, b) == [k |-> "f2", f |-> f, a |-> a, b |-> b]
+XBin(op, a, b) == [k |-> "bin", op |-> op, a |-> a, b |-> b]
+XSt(n) == [n |-> n, pfx |-> "", preds |-> << >>]
+XPath(root, steps) == [k |-> "path", root |-> root, arg |-> [k |-> "none"], steps |-> steps]
+One == XN_("1", XS!Num(1))
+Two == XN_("2", XS!Num(2))
+XNaN == XF1("number", XL("x"))
 \* path-free and true / false; with a path (x*): they fail to run
-ET1 == Ex(XS!Fn0A("true"))
-ET2 == Ex(XS!BinA(">", XS!F1A("string-length", XS!L("ab")), XS!N1))
-ET3 == Ex(XS!F1A("not", XS!Fn0A("false")))
-ET4 == Ex(XS!BinA("or", XS!BinA("=", XS!N1, Two), XS!L("a")))
-ET5 == Ex(XS!BinA("=", XS!Fn0A("position"), XS!Fn0A("last")))
-EF1 == Ex(XS!Fn0A("false"))
-EF2 == Ex(XS!BinA("=", XS!N1, Two))
-EF3 == Ex(XS!L(""))
-EF4 == Ex(XS!BinA("and", XS!BinA(">", Two, XS!N1), XS!BinA(">", XS!N1, Two)))
-EF5 == Ex(XS!BinA("=", XS!XNaN, XS!XNaN))
-EF6 == Ex(XS!F2A("contains", XS!L("abc"), XS!L("x")))
-EX1 == Ex(XS!BinA("=", XS!Path("rel", <<XS!St(".."), XS!St("a")>>), XS!L("x")))
-EX2 == Ex(XS!BinA("or", XS!Fn0A("true"), XS!Path("cur", << >>)))
-EX3 == Ex(XS!Path("abs", <<XS!St("c")>>))
-EX4 == Ex(XS!BinA("=", XS!Path("rel", <<XS!St(".")>>), XS!L("1")))
+ET1 == Ex(XF0("true"))
+ET2 == Ex(XBin(">", XF1("string-length", XL("ab")), One))
+ET3 == Ex(XF1("not", XF0("false")))
+ET4 == Ex(XBin("or", XBin("=", One, Two), XL("a")))
+ET5 == Ex(XBin("=", XF0("position"), XF0("last")))
+EF1 == Ex(XF0("false"))
+EF2 == Ex(XBin("=", One, Two))
+EF3 == Ex(XL(""))
+EF4 == Ex(XBin("and", XBin(">", Two, One), XBin(">", One, Two)))
+EF5 == Ex(XBin("=", XNaN, XNaN))
+EF6 == Ex(XF2("contains", XL("abc"), XL("x")))
+EX1 == Ex(XBin("=", XPath("rel", <<XSt(".."), XSt("a")>>), XL("x")))
+EX2 == Ex(XBin("or", XF0("true"), XPath("cur", << >>)))
+EX3 == Ex(XPath("abs", <<XSt("c")>>))
+EX4 == Ex(XBin("=", XPath("rel", <<XSt(".")>>), XL("1")))
 AllExprs == <<ET1, ET2, ET3, ET4, ET5, EF1, EF2, EF3, EF4, EF5, EF6, EX1, EX2, EX3, EX4>>
 
 NoLref == [txt |-> "", up |-> 0, names |-> << >>, predAt |-> 0]
@@ -323,21 +336,29 @@ AllowedFor(v) ==
 \* leafrefIsCacheable: no "[" and no ".." in the text of the path
 Cacheable(l) == l.predAt = 0 /\ l.up < 0
 
-\* ---- the machine.  st = [agenda, errs, cache, stale]; agenda = sequence of work items, the head
+\* ---- the machine.  root = the adapter's root node over (schema, data), fixed for a run;
+\* st = [agenda, errs, cache, stale]; agenda = sequence of work items, the head
 \* is done next (validateSchemaWithLog is a depth-first recursion; each step here is one call or
 \* one machine run).  n = the non-presence container taken next when the head is an "np" item
 \* (any member of its todo set: the code ranges over a map).
 \*   opt.odd    O1 (TRUE = what the code does)
 \*   opt.lrun   leafref machines run (FALSE in this fork)
 \*   opt.call   the cacheability test is bypassed (hazard model only)
-It(op, x) == [op |-> op, x |-> x, i |-> 0, bad |-> FALSE, todo |-> {}]
-Init(schema, data) == [agenda |-> << It("validate", RootX(schema, data)) >>, errs |-> << >>, cache |-> << >>, stale |-> FALSE]
+\* Work items name their adapter node by its address (Addr); Locate finds it again below the root
+\* (a name that is not among the data children is an unconfigured non-presence container).
+RECURSIVE Locate(_, _)
+Locate(y, a) ==
+  IF a = << >> THEN y
+  ELSE LET cs == Children(y, FALSE)  hit == {i \in 1..Len(cs) : cs[i].name = a[1]} IN
+       IF hit # {} THEN Locate(cs[CHOOSE i \in hit : TRUE], Tail(a)) ELSE Locate(Ephemeral(y, a[1]), Tail(a))
+It(op, x) == [op |-> op, a |-> Addr(x), i |-> 0, bad |-> FALSE, todo |-> {}]
+Init == [agenda |-> << [op |-> "validate", a |-> << >>, i |-> 0, bad |-> FALSE, todo |-> {}] >>, errs |-> << >>, cache |-> << >>, stale |-> FALSE]
 Done(st) == st.agenda = << >>
 Choices(st) == IF ~Done(st) /\ st.agenda[1].op = "np" /\ st.agenda[1].todo # {} THEN st.agenda[1].todo ELSE {""}
 CacheHas(c, k) == \E i \in 1..Len(c) : c[i].k = k
 CacheGet(c, k) == c[CHOOSE i \in 1..Len(c) : c[i].k = k].vals
-StepWith(st, n, vt, opt) ==
-  LET it == st.agenda[1]  rest == Tail(st.agenda)  x == it.x
+StepWith(root, st, n, vt, opt) ==
+  LET it == st.agenda[1]  rest == Tail(st.agenda)  x == Locate(root, it.a)
       go(items, es) == [st EXCEPT !.agenda = items \o rest, !.errs = st.errs \o es] IN
   CASE it.op = "validate" ->
          LET cs == Children(x, TRUE) IN
@@ -345,13 +366,13 @@ StepWith(st, n, vt, opt) ==
          THEN go(Concat([i \in 1..Len(cs) |-> <<It("check", cs[i])>> \o (IF x.sch.typ = "leafref" THEN <<It("lref", cs[i])>> ELSE << >>)]), << >>)
          ELSE IF x.t = "list" THEN go([i \in 1..Len(cs) |-> It("validate", cs[i])], << >>)
          ELSE go(<<It("check", x)>> \o [i \in 1..Len(cs) |-> It("validate", cs[i])], << >>)
-    [] it.op = "check" -> IF Skip(x, vt) THEN go(<< >>, << >>) ELSE go(<<[It("when", x) EXCEPT !.i = 1]>>, << >>)
+    [] it.op = "check" -> IF Skip(x, vt) THEN go(<< >>, << >>) ELSE go(<<[it EXCEPT !.op = "when", !.i = 1]>>, << >>)
     [] it.op = "when" ->
-         IF it.i > Len(x.sch.whens) THEN (IF it.bad THEN go(<< >>, << >>) ELSE go(<<[It("must", x) EXCEPT !.i = 1]>>, << >>))
+         IF it.i > Len(x.sch.whens) THEN (IF it.bad THEN go(<< >>, << >>) ELSE go(<<[it EXCEPT !.op = "must", !.i = 1, !.bad = FALSE]>>, << >>))
          ELSE LET w == x.sch.whens[it.i]  es == Check(x, w.e, w.rap, WhenMsg(w.e), "must-violation", "when") IN
               go(<<[it EXCEPT !.i = it.i + 1, !.bad = it.bad \/ es # << >>]>>, es)
     [] it.op \in {"must", "npmust"} ->
-         IF it.i > Len(x.sch.musts) THEN go(<<[It("np", x) EXCEPT !.todo = NPKids(x)]>>, << >>)
+         IF it.i > Len(x.sch.musts) THEN go(<<[it EXCEPT !.op = "np", !.i = 0, !.todo = NPKids(x)]>>, << >>)
          ELSE LET m == x.sch.musts[it.i] IN go(<<[it EXCEPT !.i = it.i + 1]>>, Check(x, m.e, FALSE, MustMsg(m), MustTag(m), it.op))
     [] it.op = "np" ->
          IF it.todo = {} THEN go(<< >>, << >>)
@@ -369,11 +390,11 @@ StepWith(st, n, vt, opt) ==
                    [st2 EXCEPT !.cache = IF ~hit /\ (opt.call \/ Cacheable(x.sch.lref)) THEN Append(st.cache, [k |-> key, vals |-> allowed]) ELSE st.cache,
                                !.stale = st.stale \/ (hit /\ allowed # AllowedFor(x))]
 \* the canonical run (non-presence siblings in schema order), for the behaviour generator
-FirstNP(st) == LET x == st.agenda[1].x  dk == DataKids(x.sch.kids) IN
+FirstNP(root, st) == LET x == Locate(root, st.agenda[1].a)  dk == DataKids(x.sch.kids) IN
                dk[CHOOSE i \in 1..Len(dk) : dk[i].name \in st.agenda[1].todo /\ \A j \in 1..(i - 1) : dk[j].name \notin st.agenda[1].todo].name
-RECURSIVE RunFrom(_, _, _)
-RunFrom(st, vt, opt) == IF Done(st) THEN st ELSE RunFrom(StepWith(st, IF Choices(st) = {""} THEN "" ELSE FirstNP(st), vt, opt), vt, opt)
-Run(schema, data, vt, opt) == RunFrom(Init(schema, data), vt, opt).errs
+RECURSIVE RunFrom(_, _, _, _)
+RunFrom(root, st, vt, opt) == IF Done(st) THEN st ELSE RunFrom(root, StepWith(root, st, IF Choices(st) = {""} THEN "" ELSE FirstNP(root, st), vt, opt), vt, opt)
+Run(schema, data, vt, opt) == RunFrom(RootX(schema, data), Init, vt, opt).errs
 Opt(odd) == [odd |-> odd, lrun |-> FALSE, call |-> FALSE]
 
 \* ---- the intended meaning: the bag of errors of a data tree, over the source schema.
